@@ -503,7 +503,7 @@ def _part_b_run(ctx, modname, case):
     """run one script of another property's generator on the sanitizer build; problems = sanitizer reports in library code"""
     from pv.pool import hx
     p = _part_b_script(modname, case)
-    pool = ctx.pool("asan", nprocs=4)
+    pool = ctx.pool("asan", nprocs=4 if p.k <= 4 else 8)      # thorough generators draw up to 8 ranks
     pool.stderr_delta()
     d = pool.newdir()
     os.makedirs(os.path.join(d, "bb"), exist_ok=True)
